@@ -1,0 +1,29 @@
+//! Read-only structural dump of an `Archetype`. Compiled only under `--cfg brood_verif`.
+
+use crate::{
+    archetype::Archetype,
+    registry::Registry,
+    world::verif::VerifArchetype,
+};
+use core::slice;
+
+impl<R> Archetype<R>
+where
+    R: Registry,
+{
+    pub(crate) fn verif_dump(&self) -> VerifArchetype {
+        VerifArchetype {
+            // SAFETY: The slice is copied before this borrow ends.
+            identifier: unsafe { self.identifier.as_slice() }.to_vec(),
+            length: self.length,
+            columns: self.components.len(),
+            // SAFETY: `entity_identifiers` holds `length` initialized identifiers.
+            entity_identifiers: unsafe {
+                slice::from_raw_parts(self.entity_identifiers.0, self.length)
+            }
+            .iter()
+            .map(|identifier| (identifier.index, identifier.generation))
+            .collect(),
+        }
+    }
+}
